@@ -184,6 +184,12 @@ def run(chk: Check):
     from .c08 import rule_l1, rule_l2
     rule_l1(chk, ix)
     rule_l2(chk, ix)
+    # which characters are in-line blanks and what the continuation alternative consumes decide what text reaches a macro
+    # (C09 K1); WS tokens may be consumed by the raw-capture rule only (C06 P3)
+    from . import c06, c09
+    from .. import constfold
+    c09.rule_k1(chk, constfold.fold_tokenize(), False)
+    c06.rule_p3(chk, ix, ir)
     chk.floor("M1-must-append", 6)
     chk.floor("M2-delimiter-tables", 4)
     chk.floor("M3-flag-typestate", 12)
